@@ -135,6 +135,8 @@ def run_one(case):
     sig = lops.signature(desc)
     nontrivial = any(l != "Identity" for l in lops.leaf_ops(desc))
     try:
+        if sum(case["rs"]) % 2:
+            lops.prime_siblings(desc)     # construction history (see lops.prime_siblings)
         A = lops.build(desc)
     except Exception as e:
         return inconclusive("constructor raised %s: %s [%s]" % (
